@@ -142,7 +142,10 @@ class Gen:
             for _ in range(r.choice([0, 0, 1, 1, 2])):
                 c = cond(r, lower)
                 if c:
-                    same = [n for n, tt in lower if tt == t and t != BOOL]
+                    # option-valued defaults only for strings: a numeric option whose first matching default is an
+                    # option that currently has no value evaluates to "" (written as `CONFIG_X=`), which is outside
+                    # the well-formed space the quantifiers describe (every numeric option has a usable fallback)
+                    same = [n for n, tt in lower if tt == t and t == STRING]
                     v = r.choice(same) if (same and r.random() < 0.15) else lit(t, r)
                     e["defaults"].append([v, c])
             if t != BOOL or r.random() < 0.5:
